@@ -31,7 +31,9 @@ WORLDS = {
 
 def load_world(prop):
     from . import seams
+    from .world import start_monitor
     seams.quiet()
+    start_monitor()
     mod = importlib.import_module("sim.worlds." + WORLDS[prop])
     return mod.WORLD
 
@@ -52,7 +54,7 @@ def run_chunk(prop, tier, base, indices, keep_digests):
            "faults": Counter(), "digests": {}, "sched_digests": set(), "plan_digests": set(), "nontrivial": set(),
            "steps": 0, "sim_s": 0.0, "switches": 0, "preempts": 0, "samples": [], "violating_runs": 0}
     for idx in indices:
-        faulthandler.dump_traceback_later(120, exit=True)
+        faulthandler.dump_traceback_later(400, exit=True)
         seed = run_seed_of(base, prop, idx)
         plan = world.make_plan(seed, tier)
         try:
